@@ -90,7 +90,9 @@ impl Deserialize for PlutusMap {
                 cbor_event::Len::Len(n) => total < n as usize,
                 cbor_event::Len::Indefinite => true,
             } {
-                if is_break_tag(raw, "PlutusMap")? {
+                // a break ends an indefinite-length map only; the original bytes of a datum are
+                // written back verbatim, so a malformed definite map must not be accepted
+                if len == cbor_event::Len::Indefinite && is_break_tag(raw, "PlutusMap")? {
                     break;
                 }
                 let key = PlutusData::deserialize(raw)?;
@@ -279,7 +281,7 @@ impl Deserialize for PlutusList {
                 cbor_event::Len::Len(n) => arr.len() < n as usize,
                 cbor_event::Len::Indefinite => true,
             } {
-                if is_break_tag(raw, "PlutusList")? {
+                if len == cbor_event::Len::Indefinite && is_break_tag(raw, "PlutusList")? {
                     break;
                 }
                 arr.push(PlutusData::deserialize(raw)?);
